@@ -151,12 +151,42 @@ func Validator(c *Ctx) error {
 	if c.Thorough() {
 		nRand = 6000
 	}
-	names := []string{"a", "a-b", "a b", "ab", "a.b", "a0", "b", "\xc3\xa9", "!", "-", "0", "A", "~", strings.Repeat("n", 255)}
+	// names that merely begin with dots are ordinary names
+	names := []string{"a", "a-b", "a b", "ab", "a.b", "a0", "b", "\xc3\xa9", "!", "-", "0", "A", "~", strings.Repeat("n", 255), "...", "..b", "..data", ".a", "a..", ".-"}
 	for i := 0; i < nRand; i++ {
 		walk := randomWalk(c, names, 2+c.Rand.Intn(30))
 		emitSeq(c, walk, "walk")
 		m := mutateWalk(c, walk)
 		emitSeq(c, m, "mutated")
+	}
+
+	// 2b. deep chains: directories a, a/a, ... down to depth d, then one more change at level k that is a duplicate,
+	// a smaller sibling (both invalid) or a larger sibling (valid): the parent records of every depth must survive
+	maxDepth := 24
+	for d := 1; d <= maxDepth; d++ {
+		var chain []vchange
+		p := ""
+		var prefixes []string
+		for k := 1; k <= d; k++ {
+			prefixes = append(prefixes, p)
+			if p == "" {
+				p = "m"
+			} else {
+				p += "/m"
+			}
+			chain = append(chain, vchange{p, "add", true})
+		}
+		for k := 1; k <= d; k++ {
+			for _, x := range []string{"m", "A", "z"} {
+				q := x
+				if prefixes[k-1] != "" {
+					q = prefixes[k-1] + "/" + x
+				}
+				for _, isDir := range []bool{false, true} {
+					emitSeq(c, append(append([]vchange{}, chain...), vchange{q, "add", isDir}), "deepChain")
+				}
+			}
+		}
 	}
 
 	// 3. order: all pairs over a clean path alphabet + random pairs
